@@ -45,7 +45,8 @@ def spec(field, v):
     if field == "heading_anchors":
         return (v is None) or (isinstance(v, int) and 0 <= v <= 7), v  # bool is an int in Python (True == 1)
     if field == "words_per_minute":
-        return isinstance(v, int), v
+        # documented as "a positive integer" (bool is an int in Python: True == 1 is accepted, False == 0 is not)
+        return isinstance(v, int) and v > 0, v
     if field == "html_meta":
         ok = isinstance(v, dict) and all(isinstance(k, str) and isinstance(x, str) for k, x in v.items())
         return ok, v
